@@ -18,6 +18,9 @@ Decided (structural; the global state machine over histories is NOT decided):
  X6 listening set: `listen(p)` adds p to the listening set on every path on which the set does not already contain p -
     the only condition guarding the insertion is membership of p in the listening set itself (never the state of the
     connection table); `unlisten` removes only p.
+ X7 peer-shutdown flag: the connection's "peer requested shutdown" flag (the boolean of a connection that gates the
+    reset-and-remove in recv) is only ever *set*: every assignment outside the connection constructor stores the
+    constant true - a later event can never clear it, so a drained connection is always closed with a reset.
  X4 buffer return: every received packet, whatever the handler's outcome, returns its buffer (C19.Q1 on the receive
     queue's poll).
 """
@@ -29,7 +32,7 @@ EXPLANATION = ("Who-may-mutate and guard (control-dependence) queries over the M
                "enumerated from resolved Vec method calls and their index operands traced to the lookup result; accept/reset emission "
                "sites are checked for their guards; public operations are checked for lookup dominance.")
 CONFIGS = ['def', 'alloc', 'def-rel']    # these drivers need the `alloc` feature
-FLOORS = {'listen_inserts': 1, 'selection_predicates': 2, 'table_mutations': 2, 'public_ops': 6}
+FLOORS = {'shutdown_flag_stores': 1, 'listen_inserts': 1, 'selection_predicates': 2, 'table_mutations': 2, 'public_ops': 6}
 MGR = 'device::socket::connectionmanager::VsockConnectionManager'
 VEC = 'alloc::vec::Vec::<T, A>::'
 VEC2 = 'alloc::vec::Vec::<T>::'
@@ -254,8 +257,49 @@ def x6_listen(F, R, listen_field):
     R.count('listen_inserts', n)
 
 
+def x7_shutdown_flag(F, R):
+    conn = 'device::socket::connectionmanager::Connection'
+    if conn not in F.adts:
+        return
+    all_bools = [f['name'] for f in F.adts[conn]['variants'][0]['fields'] if f['ty'] == 'bool']
+    # the flag in question: the boolean(s) of a connection that guard a removal from the connection table
+    bools = set()
+    for b in F.bodies.values():
+        if b.get('impl_adt') != MGR or not F.handwritten(b) or b['kind'] != 'AssocFn':
+            continue
+        sg = supergraph(F, b['id'], tag='flat', max_depth=0)
+        S = sg.sym
+        for c in sg.calls(lambda d: d.get('fn', '').startswith('alloc::vec::Vec::') and d['fn'].rsplit('::', 1)[1] in ('swap_remove', 'remove')):
+            for swid, vals, succ in sg.guards_of(c.id):
+                d = S.operand(swid, sg.nodes[swid].d['discr'])
+                for x in deep_subterms(S, d):
+                    if x[0] == 'loc':
+                        for pp in x[2]:
+                            if pp[0] == 'f' and pp[2] == conn and pp[1] in all_bools:
+                                bools.add(pp[1])
+    n = 0
+    for b in F.bodies.values():
+        if not F.handwritten(b) or 'connectionmanager' not in b['id']:
+            continue
+        sg = supergraph(F, b['id'], tag='flat', max_depth=0)
+        S = sg.sym
+        for nd in sg.nodes:
+            if nd.kind != 'assign' or not nd.d['place']['p']:
+                continue
+            last = nd.d['place']['p'][-1]
+            if not (isinstance(last, dict) and last.get('adt') == conn and last.get('n') in bools):
+                continue
+            n += 1
+            v = strip_conv(S.rvalue(nd.id, nd.d['rv']))
+            R.check(v[0] == 'const' and v[1] == 1, 'X7', '%s:%s:set-only' % (b['id'], last['n']), site(sg, nd), 'the flag is assigned the constant true',
+                    'the connection flag `%s` is assigned %s: an event arriving after the peer\'s shutdown can clear it again, the connection is then never reset and '
+                    'removed once its buffered data has been read' % (last['n'], fmt(v)[:80]))
+    R.count('shutdown_flag_stores', n)
+
+
 def run(F, R):
     x5_predicates(F, R)
+    x7_shutdown_flag(F, R)
     M = model(F)
     M.require_rings()
     roles = C05.classify_api(C05.queue_api(F, M))
